@@ -316,3 +316,12 @@ brk("c13-reintroduce-F9", ["C13", "C12"], NS, 'DEFAULT_DECIMAL_DIGITS = int(os.e
 brk("c13-mul-as-plus", ["C13"], NS, '    Mul: "*",', '    Mul: "x",', {"C13": ["C13.vocab"]})
 brk("c13-sides-swapped", ["C13"], NS, '    return f"({inequality_operator} {pddl_left_side} {pddl_right_side})"', '    return f"({inequality_operator} {pddl_right_side} {pddl_left_side})"', {"C13": ["C13.sides"]})
 brk("c13-mangle-deletes-underscore", ["C13"], NS, 're.sub(r"[\\(\\-\\)\\s\\?]", "", var)', 're.sub(r"[\\(\\)\\?_]", "", var)', {"C13": ["C13.mangle"]})
+
+# ------------------------------------------------------------------------------------------------ typed lists (C01 / C05 / C06)
+brk("c01-signature-group-not-reset", ["C01"], PU, "                signature[grouped_param] = domain_types[parameter_type]\n\n            grouped_params = []\n", "                signature[grouped_param] = domain_types[parameter_type]\n\n", {"C01": ["C01.typedlist"]})
+brk("c01-signature-unknown-type-defaults", ["C01"], PU, "                signature[grouped_param] = domain_types[parameter_type]", "                signature[grouped_param] = domain_types.get(parameter_type, ObjectType)", {"C01": ["C01.typedlist"]})
+brk("c01-constants-group-not-reset", ["C01"], DP, "                type_marker_reached = False\n                same_type_constants = []\n                continue", "                type_marker_reached = False\n                continue", {"C01": ["C01.typedlist"]})
+brk("c05-objects-group-not-reset", ["C05"], PRP, "            same_type_objects = []\n            iterator += 2", "            iterator += 2", {"C05": ["C05.typedlist"]})
+brk("c05-objects-unknown-type-object", ["C05"], PRP, "                    name: PDDLObject(name=name, type=self.domain.types[objects_type])\n", "                    name: PDDLObject(name=name, type=self.domain.types.get(objects_type, self.domain.types[\"object\"]))\n", {"C05": ["C05.typedlist"]})
+brk("c06-types-group-not-reset", ["C06"], DP, "\n            same_types_objects = []\n            index += 2", "\n            index += 2", {"C06": ["C06.typedlist"]})
+twin("t-pu-signature-clear", ["C01"], PU, "            grouped_params = []\n\n        else:", "            grouped_params = list()\n\n        else:", "reset through list()")
